@@ -96,6 +96,11 @@ CASES = [
     ("chain step writes the first new hyperedge twice", SA, "            hye_list[idx2] = set(new_hye2)", "            hye_list[idx2] = set(new_hye1)", 0, ["HyMMSBMSampler._mcmc_step"], "ensures:degrees"),
     ("random_hypergraph draws from one node too many", "hypergraphx/generation/random.py", "    nodes = list(range(num_nodes))\n    h.add_nodes(nodes)", "    nodes = list(range(num_nodes + 1))\n    h.add_nodes(nodes)", 0,
      ["random_hypergraph"], "loop0:entry:V"),
+    ("temporal aggregate: closed window", TH, "                and t_start <= sorted_edges[edge_index][0] < t_end", "                and t_start <= sorted_edges[edge_index][0] <= t_end", 0,
+     ["TemporalHypergraph.aggregate"], "loop1:preserved:in_window"),
+    ("temporal aggregate: windows never reset", TH, "            edges_in_window = []  # Reset for the next window", "            pass", 0, ["TemporalHypergraph.aggregate"], "loop0:preserved:win_empty"),
+    ("bipartite projection links the node to itself", "hypergraphx/representations/projections.py", "            g.add_edge(obj_to_id[edge], obj_to_id[node])", "            g.add_edge(obj_to_id[node], obj_to_id[node])", 0,
+     ["bipartite_projection"], "loop2:preserved:links"),
     # ---- hygiene-only and behaviour-preserving changes: nothing may fail
     ("bfs: depth counter dropped from the queue records' use (same search)", "hypergraphx/utils/visits.py",
      "                queue.extend((n, depth + 1) for n in neighbors if n not in visited)", "                queue.extend((n, depth + 2) for n in neighbors if n not in visited)", 0, ["_bfs"], None),
